@@ -69,10 +69,12 @@ def hull2 (x y : Rat × Rat) : Except Err (Rat × Rat) :=
   let b := max x.2 y.2
   if a ≤ b then .ok (a, b) else .error .Assertion
 
-def ivlEnds : List Opnd → List (Rat × Rat)
-  | [] => []
-  | .ivl lo hi :: t => (lo, hi) :: ivlEnds t
-  | _ :: t => ivlEnds t
+def Opnd.ends? : Opnd → Option (Rat × Rat)
+  | .ivl lo hi => some (lo, hi)
+  | _ => none
+
+/-- `(lo, hi)` of the `Interval` operands, in listing order -/
+def ivlEnds (l : List Opnd) : List (Rat × Rat) := l.filterMap Opnd.ends?
 
 /-- result of `envelope`: an `Interval` from the shortcut, else a p-box -/
 inductive Res where
